@@ -50,6 +50,20 @@ class BuildResult:
         self.wall = 0.0
 
 
+AGREE_MODULE = {}
+for _t, _names in {
+    "Classes": ["classes_complete", "class_quotes", "secondary_quote"],
+    "Ops": ["arith_text", "bool_text", "order_text", "left_parens", "right_parens", "needs_brackets"],
+    "Pagination": ["pagination", "setop_pagination"],
+    "Edges": ["edges"],
+    "FormatAlias": ["format_alias"],
+    "Placeholders": ["placeholders"],
+    "Interval": ["interval_templates", "interval_labels", "interval_pattern", "interval_grid"],
+}.items():
+    for _n in _names:
+        AGREE_MODULE[_n] = "Pypika.Agree." + _t
+
+
 def _lock():
     os.makedirs(os.path.join(LEAN, ".lake"), exist_ok=True)
     f = open(os.path.join(LEAN, ".lake", "verif.lock"), "w")
